@@ -121,11 +121,19 @@ def rule_says_email(s):
 def detect_ew(s):
     r = detect_ew_real(s)
     if not r:
-        # the restated rules find an address / a website where the detectors under test reported nothing
-        if rule_says_email(s):
+        # the restated rules find an address / a website where the detectors under test reported nothing.  The rules speak
+        # about the sections the keyboard-walk stage leaves unlabelled (a walk such as '9ol.' can swallow the dot of '.com'),
+        # so they are applied to those sections, as the pipeline does
+        from lib_trainer.detection_rules.keyboard_walk import detect_keyboard_walk
+        try:
+            sl, _, _ = detect_keyboard_walk(s)
+            parts = [t for t, lab in sl if lab is None]
+        except Exception:
+            parts = []
+        if any(rule_says_email(t) for t in parts):
             N_RULE_ONLY[0] += 1
             return 'e'
-        if rule_says_website(s):
+        if any(rule_says_website(t) for t in parts):
             N_RULE_ONLY[0] += 1
             return 'w'
     return r
